@@ -9,8 +9,8 @@
 (*                                    AddChain / AddPreChain               *)
 (*   schedule/schedule.go             Every (ticker + ctx.Done select)     *)
 (*                                                                         *)
-(* Goroutines: the log-list ticker (T*), the proxy loop (L*), one root     *)
-(* refresher per distributor generation (R*), submissions (S*), and the    *)
+(* Goroutines: the log-list ticker (T..), the proxy loop (L..), one root   *)
+(* refresher per distributor generation (R..), submissions (S..), and the  *)
 (* environment (the published content, transient read faults, the passing  *)
 (* of time, cancellation of the proxy's context).  One action per critical *)
 (* section or blocking point:                                              *)
@@ -18,7 +18,7 @@
 (*   TManager   RefreshLogList under llm.mu: previous := latest; latest := *)
 (*   TProduce   ProduceClientLogList under llm.mu                          *)
 (*   TSendUpd / TSendErr   the capacity-1 channels (the sender may block)  *)
-(*   LRecv*     the select of the loop (any ready case may be chosen)      *)
+(*   LRecv..    the select of the loop (any ready case may be chosen)      *)
 (*   LBuildStart / LBuildEnd   the DistributorBuilder (may fail)           *)
 (*   LSwap      under distMu: cancel the old refresher, p.dist := d        *)
 (*   LInitSend / LInitClose    the Init channel                            *)
@@ -45,9 +45,10 @@ CONSTANTS
   Certs,        \* certificates that are submitted
   RootOf,       \* [Certs -> Roots]
   Subs,         \* submission identities
-  MaxPublish,   \* budget of environment changes (publications and read faults)
+  MaxPublish,   \* budget of publications
+  MaxFaults,    \* budget of transient read faults
   MaxTicks,     \* budget of Advance steps; -1 = unbounded
-  RootEvery,    \* root refresh interval in log-list refresh intervals
+  RootEvery,    \* root refresh interval in log-list refresh intervals; 0 = the root refreshers are left out of the model
   MayCancel,    \* BOOLEAN: the proxy's context may end
   Resubmit      \* BOOLEAN: a finished submission identity may be used again
 
@@ -58,7 +59,7 @@ VARIABLES
   \* environment
   source,      \* the content currently served
   failNext,    \* the next read fails (transient)
-  budget, ticks,
+  budget, faults, ticks,
   ctxDone,     \* the context given to Proxy.Run has ended
   \* logListRefresherImpl
   lastJSON,    \* None or the version last parsed successfully
@@ -95,7 +96,7 @@ VARIABLES
   scont,       \* [Subs -> SUBSET Logs] logs contacted
   sfloor       \* [Subs -> generation that was active when the call was made] (history, for UsesActive)
 
-envVars  == <<source, failNext, budget, ticks, ctxDone>>
+envVars  == <<source, failNext, budget, faults, ticks, ctxDone>>
 mgrVars  == <<lastJSON, emitted, latest, previous, updCh, errCh>>
 tickVars == <<tpc, tTick, tloc, tsend>>
 loopVars == <<lpc, lcur, linit, active, initSent, initClosed, panicked>>
@@ -115,7 +116,7 @@ Eligible(v, c, known) ==
                 /\ (known => RootOf[c] \in Accepts[l])}
 
 Init ==
-  /\ source \in Versions /\ failNext = FALSE /\ budget = MaxPublish /\ ticks = MaxTicks /\ ctxDone = FALSE
+  /\ source \in Versions /\ failNext = FALSE /\ budget = MaxPublish /\ faults = MaxFaults /\ ticks = MaxTicks /\ ctxDone = FALSE
   /\ lastJSON = None
   /\ emitted = <<>> /\ latest = 0 /\ previous = 0 /\ updCh = <<>> /\ errCh = 0
   /\ tpc = "start" /\ tTick = FALSE /\ tloc = None /\ tsend = 0
@@ -129,12 +130,12 @@ Init ==
 Publish(v) ==
   /\ budget > 0 /\ v # source
   /\ source' = v /\ budget' = budget - 1
-  /\ UNCHANGED <<failNext, ticks, ctxDone, mgrVars, tickVars, loopVars, rootVars, subVars>>
+  /\ UNCHANGED <<failNext, faults, ticks, ctxDone, mgrVars, tickVars, loopVars, rootVars, subVars>>
 
 FailNext ==
-  /\ budget > 0 /\ ~failNext
-  /\ failNext' = TRUE /\ budget' = budget - 1
-  /\ UNCHANGED <<source, ticks, ctxDone, mgrVars, tickVars, loopVars, rootVars, subVars>>
+  /\ faults > 0 /\ ~failNext
+  /\ failNext' = TRUE /\ faults' = faults - 1
+  /\ UNCHANGED <<source, budget, ticks, ctxDone, mgrVars, tickVars, loopVars, rootVars, subVars>>
 
 \* one log-list refresh interval passes: every running ticker whose period has elapsed delivers a tick
 \* (a tick that finds the buffer full is dropped)
@@ -144,12 +145,12 @@ Advance ==
   /\ tTick' = (tTick \/ tpc \notin {"start", "stopped"})
   /\ rTick' = [g \in Gens |-> rTick[g] \/ (Live(g) /\ rCount[g] = 1)]
   /\ rCount' = [g \in Gens |-> IF Live(g) THEN (IF rCount[g] = 1 THEN RootEvery ELSE rCount[g] - 1) ELSE rCount[g]]
-  /\ UNCHANGED <<source, failNext, budget, ctxDone, mgrVars, tpc, tloc, tsend, loopVars, rpc, rcancel, rdead, rknown, subVars>>
+  /\ UNCHANGED <<source, failNext, budget, faults, ctxDone, mgrVars, tpc, tloc, tsend, loopVars, rpc, rcancel, rdead, rknown, subVars>>
 
 Cancel ==
   /\ MayCancel /\ ~ctxDone
   /\ ctxDone' = TRUE
-  /\ UNCHANGED <<source, failNext, budget, ticks, mgrVars, tickVars, loopVars, rootVars, subVars>>
+  /\ UNCHANGED <<source, failNext, budget, faults, ticks, mgrVars, tickVars, loopVars, rootVars, subVars>>
 
 (* --------------------- the log-list ticker goroutine --------------------- *)
 \* schedule.Every: return if the context is done, else create the ticker and run f at once
@@ -167,7 +168,7 @@ TRead ==
           /\ IF source = lastJSON THEN tpc' = "idle" /\ UNCHANGED <<lastJSON, tloc>>
              ELSE IF Kind[source] = "unparsable" THEN tpc' = "sendErr" /\ UNCHANGED <<lastJSON, tloc>>
              ELSE lastJSON' = source /\ tloc' = source /\ tpc' = "manager"
-  /\ UNCHANGED <<source, budget, ticks, ctxDone, emitted, latest, previous, updCh, errCh, tTick, tsend, loopVars, rootVars, subVars>>
+  /\ UNCHANGED <<source, budget, faults, ticks, ctxDone, emitted, latest, previous, updCh, errCh, tTick, tsend, loopVars, rootVars, subVars>>
 
 \* RefreshLogList under llm.mu
 TManager ==
@@ -236,7 +237,7 @@ LBuildStart ==
 LBuildEnd ==
   /\ lpc = "building"
   /\ IF Kind[VersionOf(lcur)] = "good"
-     THEN lpc' = "swap" /\ rpc' = [rpc EXCEPT ![lcur] = "start"]
+     THEN lpc' = "swap" /\ rpc' = IF RootEvery > 0 THEN [rpc EXCEPT ![lcur] = "start"] ELSE rpc
      ELSE lpc' = "select" /\ UNCHANGED rpc
   /\ UNCHANGED <<envVars, mgrVars, tickVars, lcur, linit, active, initSent, initClosed, panicked, rTick, rCount, rcancel, rdead, rknown, subVars>>
 
@@ -269,7 +270,7 @@ LInitClose ==
 RStart(g) ==
   /\ rpc[g] = "start"
   /\ IF Cancelled(g)
-     THEN rpc' = [rpc EXCEPT ![g] = "stopped"] /\ UNCHANGED <<rTick, rCount, rdead>>
+     THEN rpc' = [rpc EXCEPT ![g] = "stopped"] /\ UNCHANGED <<rTick, rCount, rdead>>    \* no ticker was created
      ELSE /\ rpc' = [rpc EXCEPT ![g] = "refreshing"]
           /\ rTick' = [rTick EXCEPT ![g] = FALSE] /\ rCount' = [rCount EXCEPT ![g] = RootEvery]
           /\ rdead' = [rdead EXCEPT ![g] = FALSE]
@@ -295,7 +296,9 @@ RWakeTick(g) ==
 RWakeDone(g) ==
   /\ rpc[g] = "idle" /\ Cancelled(g)
   /\ rpc' = [rpc EXCEPT ![g] = "stopped"]
-  /\ UNCHANGED <<envVars, mgrVars, tickVars, loopVars, rTick, rCount, rcancel, rdead, rknown, subVars>>
+  /\ rTick' = [rTick EXCEPT ![g] = FALSE] /\ rCount' = [rCount EXCEPT ![g] = RootEvery]     \* defer t.Stop()
+  /\ rdead' = [rdead EXCEPT ![g] = FALSE]
+  /\ UNCHANGED <<envVars, mgrVars, tickVars, loopVars, rcancel, rknown, subVars>>
 
 (* ------------------------------ submissions ------------------------------ *)
 \* Proxy.AddChain / AddPreChain is called
@@ -382,7 +385,7 @@ TypeOK ==
   /\ latest \in 0..Len(emitted) /\ previous \in 0..Len(emitted) /\ Len(updCh) <= 1 /\ errCh \in 0..1
   /\ tpc \in {"start", "reading", "manager", "produce", "sendUpd", "sendErr", "idle", "stopped"}
   /\ lpc \in {"select", "build", "building", "swap", "initsend", "initclose", "exited"}
-  /\ \A g \in Gens : rpc[g] \in {"none", "start", "refreshing", "idle", "stopped"} /\ rCount[g] \in 1..RootEvery
+  /\ \A g \in Gens : rpc[g] \in {"none", "start", "refreshing", "idle", "stopped"} /\ rCount[g] \in 0..RootEvery
   /\ \A s \in Subs : spc[s] \in {"idle", "called", "read", "running", "failing", "done"}
   /\ Len(emitted) <= MaxPublish + 1
 
